@@ -2,8 +2,8 @@
 LEVEL = "model_checking"
 MANIFEST = {
     "engine": "tlc rule table + vh c13",
-    "technique": "TLA+ transcription of git check-ref-format evaluated by TLC over all strings of a 20-class alphabet; every row replayed into ReferenceName.Validate and (sampled) git check-ref-format",
-    "text": "Exhaustive within the bound: every string of <= 3 (quick) / <= 4 (thorough) symbols over 20 symbol classes x 4 prefixes is judged by the TLA+ rule set, by go-git and by git; spec-level theorems (valid => path-safe, only the dash rule differs from git) are TLC invariants.",
+    "technique": "TLA+ transcription of git check-ref-format evaluated by TLC over all strings of a 21-class alphabet; every row replayed into ReferenceName.Validate and (sampled) git check-ref-format",
+    "text": "Exhaustive within the bound: every string of <= 3 (quick) / <= 4 (thorough) symbols over 21 symbol classes x 4 prefixes is judged by the TLA+ rule set, by go-git and by git; spec-level theorems (valid => path-safe, only the dash rule differs from git) are TLC invariants.",
     "note": "Trusts the symbol-class abstraction (each class is rendered to several concrete bytes) and git 2.39.5 as the second witness for the spec; names longer than the bound and the literal HEAD are not covered.",
 }
 
@@ -17,9 +17,9 @@ INVARIANTS ValidImpliesSafe ValidImpliesGit PrefixClosed OnlyDashDiffers WhyAgre
 CHECK_DEADLOCK FALSE
 """ % maxlen
     r = ctx.tlc("RefName", cfg_text=cfg, timeout=1800)
-    ctx.cov["bounds"] = {"alphabet": 20, "max_len": maxlen, "prefixes": ["", "refs/heads/", "refs/tags/", "refs/x/"]}
+    ctx.cov["bounds"] = {"alphabet": 21, "max_len": maxlen, "prefixes": ["", "refs/heads/", "refs/tags/", "refs/x/"]}
     ctx.cov["exhaustive"] = True
-    ctx.cov["rule"] = ("every string of <= %d symbols over the 20-class alphabet of spec/rules/RefName.tla is one TLC state; "
+    ctx.cov["rule"] = ("every string of <= %d symbols over the 21-class alphabet of spec/rules/RefName.tla is one TLC state; "
                        "each is rendered to concrete bytes (canonical + seeded variants) x 4 prefixes; distinct = distinct concrete names; "
                        "non-trivial = every name is judged by spec, go-git and (sampled) git" % maxlen)
     ctx.vh("c13", [r.dir + "/refname_rows.ndjson"])
